@@ -137,6 +137,7 @@ Judge ==
     /\ ((ph' = "idle" => \A s \in Stores : (Local(s) /\ s \notin opened') =>
                 \A o \in Oids : T[s][o] = "ok_u" => o \in unfin') \/ Say("VERDICT", "C01", "Protected"))
     /\ ((op \notin {"Tamper", "ExtDelete", "Gc"} => C07_IntactUnharmed(S, T)) \/ Say("VERDICT", "C07", "IntactUnharmed"))
+    /\ ((op \in QueryOps => C07_NoBlessing(S, T)) \/ Say("VERDICT", "C07", "CorruptObjectBlessed"))
     \* ---- end of a transfer -------------------------------------------------
     /\ (op = "TransferEnd" /\ L.op = "transfer") =>
          /\ (C11_Disjoint(L) \/ Say("VERDICT", "C11", "Disjoint"))
